@@ -20,7 +20,13 @@ JUNK = ["foo", "a / b"]
 
 
 def names(rng):
-    return rng.shuffle(TYS), rng.shuffle(SUBS)
+    tys, subs = rng.shuffle(TYS), rng.shuffle(SUBS)
+    if rng.chance(1, 3):
+        # two DIFFERENT subtypes that differ only by a structured-syntax suffix (RFC 6838 4.2.8): never the same media type
+        base = rng.choice(["json", "x-jackson-smile", "cbor"])
+        pair = rng.choice([[base, base + "+xml"], [base + "+json", base], [base, base + "-seq"]])
+        subs = pair + [x for x in subs if x not in pair]
+    return tys, subs
 
 
 def render_range(r, tys, subs, rng):
